@@ -3,7 +3,13 @@
 (* SQLStore - the same module judges both) must be the corresponding         *)
 (* PaymentStore action, and what the store answered (error class, returned   *)
 (* payment, count, in-flight set) and the state of every payment read back   *)
-(* through FetchPayment after the call must equal the model's.               *)
+(* through FetchPayment after the call must equal the model's - including    *)
+(* the ROUTE of every attempt as the store hands it back (ConformRoute,      *)
+(* ConformRetRoute): the model's stored image is the registered route, and   *)
+(* the model decides the admission of every later shard from it, so a store  *)
+(* that loses or alters an admission-relevant field is rejected either at    *)
+(* the registration (read-back differs) or at the next shard (class differs).*)
+(* RecordedRoundTrip states the round trip on recorded values alone.         *)
 (* With a quirk constant TRUE the named deviation is allowed and announced   *)
 (* by a line  <<"QUIRK", key, line>>  on stdout.                             *)
 EXTENDS PaymentStoreObs, Json
@@ -19,7 +25,7 @@ Quirk(key) == PrintT(<<"QUIRK", key, l>>)
 
 Reset == /\ Is("Reset")
          /\ payments' = [h \in Hashes |-> Absent]
-         /\ last' = [op |-> "none", h |-> "", cls |-> "ok", n |-> -1]
+         /\ last' = NoLast
 
 DupShape(h, id) == IF payments[h].att[id].st = "none" THEN "other-payment" ELSE "same-" \o payments[h].att[id].st
 
@@ -59,6 +65,14 @@ ConformState == (l > 1) => \A h \in Hashes : ProjOk(Last.s[h], payments[h])
 \* the payment returned by Register / Settle / FailAttempt / Fail / Fetch
 ConformRet   == (Live /\ Last.a \in Returning) =>
                    IF last.cls = "ok" THEN ProjOk(Last.ret, payments[Last.h]) ELSE Last.ret.ex = 0
+\* the routes: of every attempt of every payment read back after the call, and
+\* of the payment returned by the call
+ConformRoute    == (l > 1) => \A h \in Hashes : RouteOk(Last.s[h], payments[h])
+ConformRetRoute == (Live /\ Last.a \in Returning /\ last.cls = "ok") => RouteOk(Last.ret, payments[Last.h])
+\* on recorded values alone: an admitted attempt reads back as it was registered
+RecordedRoundTrip == (Live /\ Last.a = "Register" /\ Last.cls = "ok") =>
+                        /\ Last.s[Last.h].rt[Last.id] = Last.rt
+                        /\ Last.ret.rt[Last.id] = Last.rt
 \* DeletePayments' count, FetchInFlightPayments' set
 ConformCount == (Live /\ Last.a = "DeletePayments") => Last.n = last.n
 ConformInFl  == (Live /\ Last.a = "FetchInFlight") =>
